@@ -14,6 +14,8 @@ TABLE = [
     ("C03", r"dispatch_A", r".*", ["default_options_both_directions", "tiny_time_scale", "zero_length_dense", "first_step_rejected_then_success", "first_step_sign_and_overshoot"]),
     ("C06", r"dispatch", r".*", ["zero_length_dense", "sol_at_every_sample"]),
     ("C06", r"method_map", r".*", ["sol_at_every_sample", "zero_length_dense", "dense_midstep_order"]),
+    ("C13", r"cont_R", r".*", ["extrapolation_reflection"]),
+    ("C20", r"cont_R", r"extrapolat", ["extrapolation_reflection"]),
     ("C06", r"cont_R", r"sol_many|evaluate_many", ["sol_many_range"]),
     ("C06", r"cont_R", r"build\.", ["zero_length_dense", "sol_at_every_sample"]),
     ("C06", r"cont_R", r".*", ["tiny_time_scale", "sol_at_every_sample", "sol_many_range", "zero_length_dense"]),
